@@ -9,7 +9,7 @@ SCOPE = {
     "C02": None,
     "C03": {"dequeue"},
     "C04": {"ack", "nack", "extend", "mark_dead", "ack_batch", "nack_batch", "mark_dead_batch"},
-    "C05": {"dequeue", "nack", "nack_batch", "restart", "extend"},
+    "C05": {"dequeue", "nack", "nack_batch", "restart", "extend", "enqueue", "enqueue_batch"},
     "C12": {"enqueue", "enqueue_batch"},
     "C14": {"cancel", "requeue", "resume", "requeue_dead", "delete_dead", "cancel_f", "requeue_f", "resume_f"},
     "C13": None,
